@@ -439,6 +439,30 @@ theorem find_same {sch : Schema} (s : Sess) (c : Nat) (pk : Option KeyVal) (kw :
             rw [hc] at this
             exact sameKeys_setObj s o _ s.queue (objSame_trans (setRbits_same sch _ _) this)
 
+theorem findVia_same {sch : Schema} (s : Sess) (c : Nat) (pk : KeyVal) (via : ObjId) (kw : List (Nat × Int)) :
+    SameKeys sch s (findVia sch s c pk via kw).1 := by
+  unfold findVia
+  split
+  · exact SameKeys.refl _ _
+  · simp only
+    split
+    · exact SameKeys.refl _ _
+    · split
+      · exact SameKeys.refl _ _
+      · split
+        · exact SameKeys.refl _ _
+        · split
+          · exact SameKeys.refl _ _
+          · split
+            · rename_i ob' e hc
+              have := findCheck_same sch (s.obj via) kw
+              rw [hc] at this
+              exact sameKeys_setObj s via _ s.queue this
+            · rename_i ob' hc
+              have := findCheck_same sch (s.obj via) kw
+              rw [hc] at this
+              exact sameKeys_setObj s via _ s.queue (objSame_trans (setRbits_same sch _ _) this)
+
 theorem proxy_state (s : Sess) (o : ObjId) : (proxy s o).1 = s := by
   unfold proxy
   split
@@ -792,6 +816,7 @@ theorem step_inv {sch : Schema} {s : Sess} (hI : Inv sch s) (op : Op) (hg : load
   | proxy o => simp only [proxy_state]; exact hI
   | markRead os attrs => exact inv_congr (markRead_same s os attrs) hI
   | cascadeFail cs => exact inv_congr (cascadeGo_eq hI cs).sameKeys hI
+  | findVia c pk via kw => exact inv_congr (findVia_same s c pk via kw) hI
 
 theorem dbSet_n (sch : Schema) (s : Sess) (o : ObjId) (rowv : Nat → Slot) (u : Bool) : (dbSet sch s o rowv u).1.n = s.n := by
   unfold dbSet
@@ -868,7 +893,56 @@ theorem step_n_le (sch : Schema) (s : Sess) (op : Op) : s.n ≤ (step sch s op).
   | proxy o => simp only [proxy_state]; exact Nat.le_refl _
   | markRead os attrs => exact Nat.le_refl _
   | cascadeFail cs => exact Nat.le_of_eq (cascadeGo_n sch s cs).symm
+  | findVia c pk via kw => exact Nat.le_of_eq (findVia_same (sch := sch) s c pk via kw).n.symm
 
+/-! ## the class of a looked-up object -/
+
+theorem findCheck_cls (ob : Obj) (kw : List (Nat × Int)) : (findCheck ob kw).1.cls = ob.cls := by
+  induction kw generalizing ob with
+  | nil => rfl
+  | cons p r ih =>
+    obtain ⟨a, v⟩ := p
+    unfold findCheck
+    split
+    · rfl
+    · split
+      · rfl
+      · split
+        · exact (setRbits_fields ob [a]).2.2.2
+        · exact (ih (setRbits ob [a])).trans (setRbits_fields ob [a]).2.2.2
+
+/-- a cache lookup through entity `c` never yields an object of a class that is not `c` or one of its subclasses -/
+theorem find_yield_class (sch : Schema) (s : Sess) (c : Nat) (pk : Option KeyVal) (kw : List (Nat × Int)) (x : ObjId)
+    (hh : sch.parent.length > 1) (h : (find sch s c pk kw).2.yield = some x) :
+    sch.isSub ((find sch s c pk kw).1.obj x).cls c = true := by
+  unfold find at h ⊢
+  split at h
+  · cases h
+  · rename_i o hc
+    simp only at h ⊢
+    have hgt : decide (sch.parent.length > 1) = true := by simpa using hh
+    simp only [hgt, Bool.true_and] at h ⊢
+    split at h
+    · cases h
+    · rename_i hseed
+      split at h
+      · cases h
+      · rename_i hsub
+        split at h
+        · cases h
+        · rename_i hst
+          split at h
+          · cases h
+          · rename_i ob' hck
+            simp only [Option.some.injEq] at h
+            subst h
+            simp only [hseed, hsub, hst, if_false, Bool.false_eq_true, hck, setObj_same]
+            rw [(setRbits_fields _ _).2.2.2]
+            have := findCheck_cls (s.obj o) kw
+            rw [hck] at this
+            simp only at this
+            rw [this]
+            simpa using hsub
 /-! ## histories -/
 
 /-- no row load of the history is refused with TransactionIntegrityError (decidable; a row the database hands out
@@ -1051,5 +1125,24 @@ theorem yield_lt {sch : Schema} {s : Sess} (hI : Inv sch s) (op : Op) (x : ObjId
         · cases h
   | markRead os attrs => simp [markRead] at h
   | cascadeFail cs => simp [cascadeFail] at h
+  | findVia c pk via kw =>
+    simp only at h ⊢
+    rw [(findVia_same (sch := sch) s c pk via kw).n]
+    unfold findVia at h
+    split at h
+    · cases h
+    · rename_i hv
+      simp only at h
+      split at h
+      · cases h
+      · split at h
+        · cases h
+        · split at h
+          · cases h
+          · split at h
+            · cases h
+            · split at h
+              · cases h
+              · simp only [Option.some.injEq] at h; subst h; exact Nat.lt_of_not_le hv
 
 end PonyVerif.Model.KeyIndex
